@@ -5,6 +5,7 @@ from hypothesis import strategies as st
 from vlib import strat as S, oracles as O
 
 ID = "C13"
+SWITCH_OFF = 6        # every 6th case runs with xfab.CHECKS switched off (results must not depend on it)
 TARGETED = True     # thorough tier uses hypothesis.target on the residual/tolerance ratios
 RULE = ("Hypothesis: cell over the C01 domain x six strain components in [-0.1,0.1] (with weight on 0 and on +-0.1) x "
         "rotation spec x module. Non-trivial = |eps|_inf > 0.01 with an oblique cell and a non-axis-aligned U")
